@@ -206,7 +206,7 @@ pub fn c03_scenario(seed: u64, idx: u64) -> Scenario {
             files.push(("/ln.bin".into(), l));
         }
     }
-    sc.tree = TreeSpec { root: "root".into(), entries, mtime_mode: 0 };
+    sc.tree = TreeSpec { root: "root".into(), entries, mtime_mode: 0, meta_mode: 0 };
     let n = rng.range(1, 6);
     let overlapped = rng.chance(1, 2);
     for i in 0..n {
@@ -315,7 +315,7 @@ pub fn large_scenario(prop: &str, seed: u64, idx: u64) -> Scenario {
         1 => ("big.html", "/big"),
         _ => ("v/index.html", "/v/"),
     };
-    sc.tree = TreeSpec { root: "root".into(), entries: vec![Entry { path: format!("root/{}", name), kind: EntryKind::File(Content::Sparse { len: l, seed: rng.next() }) }], mtime_mode: 0 };
+    sc.tree = TreeSpec { root: "root".into(), entries: vec![Entry { path: format!("root/{}", name), kind: EntryKind::File(Content::Sparse { len: l, seed: rng.next() }) }], mtime_mode: 0, meta_mode: 0 };
     if prop == "C02" {
         sc.conns.push(Conn::simple(0, 0, req("GET", via, &[], b""), "large"));
         return sc;
